@@ -5,6 +5,7 @@ mod def;
 mod help;
 mod hist;
 mod lex;
+mod man;
 mod parse;
 mod util;
 mod values;
@@ -51,6 +52,7 @@ fn main() {
         "help-replay" => help::help_replay(&arg(&args, "--defs", ""), &input, &out, &div, &arg(&args, "--widths", "0,1,2,5,8,10,13,20,30,50,100,200")),
         "help-show" => help::help_show(&arg(&args, "--defs", ""), &arg(&args, "--label", ""), &arg(&args, "--path", ""), &arg(&args, "--mode", "short"), arg(&args, "--w", "0").parse().unwrap()),
         "complete-replay" => complete::complete_replay(&arg(&args, "--defs", ""), &input, &out, &div),
+        "man-replay" => man::man_replay(&input, &out, &div),
         "c04-record" => values::c04_record(seed, n, &out),
         "c20-replay" => wrap::c20_replay(&input, &out, &div),
         "c20-record" => wrap::c20_record(seed, n, arg(&args, "--maxlen", "120").parse().unwrap(), &out),
